@@ -132,6 +132,22 @@ impl FactSet {
             }
         }
     }
+    /// Remove many terms at once (with every fact that mentions them)
+    pub fn remove_terms(&mut self, ids: &BTreeSet<u32>) {
+        self.terms.retain(|t| !ids.contains(&t.id));
+        self.isa.retain(|(c, p)| !ids.contains(c) && !ids.contains(p));
+        for t in &mut self.terms {
+            if t.replacement.map_or(false, |r| ids.contains(&r)) {
+                t.replacement = None;
+            }
+        }
+        for k in KINDS {
+            for r in self.recs_mut(k) {
+                r.terms.retain(|t| !ids.contains(t));
+            }
+        }
+    }
+
     pub fn normalise(&mut self) {
         for k in KINDS {
             for r in self.recs_mut(k) {
